@@ -29,6 +29,20 @@ func vLayout(content []byte, layout int) (slice, backing []byte) {
 func vRunCase6(t *testing.T, c vCase) (msg string) {
 	switch c.Kind {
 	case "mem":
+		// every buffer ever passed to the library is kept and re-checked at the end: a later call must not write into it either
+		var heldBufs, heldSnap [][]byte
+		var heldName []string
+		defer func() {
+			if msg != "" {
+				return
+			}
+			for i := range heldBufs {
+				if !bytes.Equal(heldBufs[i], heldSnap[i]) {
+					msg = "the buffer passed to an earlier " + heldName[i] + " call (|arg|=" + itoa(len(heldSnap[i])) + ") was modified by a LATER call"
+					return
+				}
+			}
+		}()
 		g := vMulPt(big.NewInt(7), vG())
 		enc := vSec1(g, true)
 		unc := vSec1(g, false)
@@ -68,6 +82,9 @@ func vRunCase6(t *testing.T, c vCase) (msg string) {
 			for _, cl := range calls {
 				s, backing := vLayout(cl.in, layout)
 				before := append([]byte{}, backing...)
+				heldBufs = append(heldBufs, backing)
+				heldSnap = append(heldSnap, before)
+				heldName = append(heldName, cl.name)
 				cl.f(s)
 				if !bytes.Equal(before, backing) {
 					for i := range before {
@@ -128,6 +145,30 @@ func vRunCase6(t *testing.T, c vCase) (msg string) {
 				if b := get(); !bytes.Equal(b, ref) {
 					return name + ": writing to a returned buffer changed a later result (identity=" + itoa(b2i(pt.inf)) + ")"
 				}
+			}
+		}
+		// buffers handed to EARLIER calls stay untouched by later ones (a library that keeps a caller's slice and reuses it later)
+		for _, fn := range []func(m, d []byte){func(m, d []byte) { HashToGroup(m, d) }, func(m, d []byte) { EncodeToGroup(m, d) }, func(m, d []byte) { HashToScalar(m, d) }} {
+			for _, lens := range [][2]int{{300, 40}, {64, 20}, {40, 40}, {20, 19}, {256, 255}} {
+				d1, b1 := vLayout(bytes.Repeat([]byte{0x51}, lens[0]), 1)
+				m1, mb1 := vLayout(bytes.Repeat([]byte{0x52}, 48), 1)
+				before, mbefore := append([]byte{}, b1...), append([]byte{}, mb1...)
+				fn(m1, d1)
+				fn(bytes.Repeat([]byte{0x61}, 17), bytes.Repeat([]byte{0x62}, lens[1]))
+				fn(bytes.Repeat([]byte{0x63}, 48), bytes.Repeat([]byte{0x64}, lens[1]+1))
+				if !bytes.Equal(before, b1) || !bytes.Equal(mbefore, mb1) {
+					return "a later hashing call wrote into the DST/message buffer passed to an earlier call (|dst| " + itoa(lens[0]) + " then " + itoa(lens[1]) + ")"
+				}
+			}
+		}
+		for _, dec := range []func(in []byte){func(in []byte) { _ = NewElement().Decode(in) }, func(in []byte) { _ = NewScalar().Decode(in) }} {
+			in1, bk1 := vLayout(append([]byte{}, enc...), 1)
+			keep := append([]byte{}, bk1...)
+			dec(in1)
+			dec(vSec1(vMulPt(big.NewInt(9), vG()), true))
+			dec(vPad32(big.NewInt(77)))
+			if !bytes.Equal(keep, bk1) {
+				return "a later Decode wrote into the buffer passed to an earlier Decode"
 			}
 		}
 		e = vElementOf(g, big.NewInt(3))
